@@ -1,16 +1,14 @@
 package checks
 
 import (
-	"errors"
 	"fmt"
+	"github.com/verily-src/fhirpath-go/fhirpath/verifh/ftab"
 	"sort"
 	"strings"
 	"unicode"
 
 	"github.com/verily-src/fhirpath-go/fhirpath"
 	"github.com/verily-src/fhirpath-go/fhirpath/compopts"
-	"github.com/verily-src/fhirpath-go/fhirpath/internal/funcs"
-	"github.com/verily-src/fhirpath-go/fhirpath/internal/funcs/impl"
 	"github.com/verily-src/fhirpath-go/fhirpath/patch"
 	"github.com/verily-src/fhirpath-go/fhirpath/verifh/core"
 	"github.com/verily-src/fhirpath-go/fhirpath/verifh/lib"
@@ -37,7 +35,7 @@ var n1 = map[string]specSig{
 	"skip": {1, 1, "Patient.name", []string{"1"}}, "take": {1, 1, "Patient.name", []string{"1"}},
 	"intersect": {1, 1, "Patient.name.given", []string{"'Ann'"}}, "exclude": {1, 1, "Patient.name.given", []string{"'Ann'"}},
 	"union": {1, 1, "Patient.name.given", []string{"'Ann'"}}, "combine": {1, 1, "Patient.name.given", []string{"'Ann'"}},
-	"iif": {2, 3, "Patient", []string{"true", "1", "2"}},
+	"iif":       {2, 3, "Patient", []string{"true", "1", "2"}},
 	"toBoolean": {0, 0, "'true'", nil}, "convertsToBoolean": {0, 0, "'true'", nil}, "toInteger": {0, 0, "'1'", nil}, "convertsToInteger": {0, 0, "'1'", nil},
 	"toDate": {0, 0, "'2020-01-01'", nil}, "convertsToDate": {0, 0, "'2020-01-01'", nil}, "toDateTime": {0, 0, "'2020-01-01T10:00:00Z'", nil}, "convertsToDateTime": {0, 0, "'2020-01-01T10:00:00Z'", nil},
 	"toDecimal": {0, 0, "'1.5'", nil}, "convertsToDecimal": {0, 0, "'1.5'", nil},
@@ -85,32 +83,25 @@ func fillArgs(sig specSig, n int) []string {
 // snapshot of the default function table taken at process start, before any Compile call
 var c16BaseKeys = func() map[string]bool {
 	m := map[string]bool{}
-	for k := range funcs.Clone() {
+	for k := range ftab.Table(false) {
 		m[k] = true
 	}
 	return m
 }()
-var c16BaseSnapshot = tableSnapshot(funcs.Clone())
+var c16BaseSnapshot = tableSnapshot(ftab.Table(false))
 
-func tableSnapshot(t funcs.FunctionTable) string {
-	var ks []string
-	for k, fn := range t {
-		ks = append(ks, fmt.Sprintf("%s=%s/%d..%d", k, lib.FuncName(fn.Func), fn.MinArity, fn.MaxArity))
-	}
-	sort.Strings(ks)
-	return strings.Join(ks, ";")
-}
+func tableSnapshot(t map[string]ftab.Entry) string { return ftab.Snapshot(t) }
 
 func init() {
 	type cfg struct {
 		name  string
 		copts func() []fhirpath.CompileOption
-		table func() funcs.FunctionTable
+		table func() map[string]ftab.Entry
 	}
 	cfgs := []cfg{
-		{"default", func() []fhirpath.CompileOption { return nil }, func() funcs.FunctionTable { return funcs.Clone() }},
+		{"default", func() []fhirpath.CompileOption { return nil }, func() map[string]ftab.Entry { return ftab.Table(false) }},
 		{"experimental", func() []fhirpath.CompileOption { return []fhirpath.CompileOption{compopts.WithExperimentalFuncs()} },
-			func() funcs.FunctionTable { return funcs.AddExperimentalFuncs(funcs.Clone()) }},
+			func() map[string]ftab.Entry { return ftab.Table(true) }},
 	}
 	names := func() []string {
 		set := map[string]bool{}
@@ -120,7 +111,7 @@ func init() {
 		for k := range documentedExt {
 			set[k] = true
 		}
-		for k := range funcs.AddExperimentalFuncs(funcs.Clone()) {
+		for k := range ftab.Table(true) {
 			set[k] = true
 		}
 		// near-miss spellings that must not resolve
@@ -134,11 +125,11 @@ func init() {
 		sort.Strings(out)
 		return out
 	}
-	const placeholder = "fhirpath/internal/funcs.unimplemented"
+	const placeholder = ftab.Placeholder
 
 	core.Register(&core.Check{
-		ID:   "C16",
-		Rule: "complete enumeration: every name of (FHIRPath N1 list U repo base+experimental tables U near-miss spellings) x argument count 0..4 x {default, WithExperimentalFuncs} x {fhirpath.Compile, patch.Compile}; every call is also compiled with each argument replaced by a nested call that takes arguments (same acceptance, same result); accepted calls are evaluated with specification-typed arguments and again with the empty collection as receiver and in each argument position (no arity complaint); a not-implemented function must fail explicitly also as operand of every operator kind, as receiver, argument and criterion (16 contexts); binding of every table key is read with runtime.FuncForPC; a case is non-trivial when its (name, arity, config, compiler, outcome) is distinct",
+		ID:          "C16",
+		Rule:        "complete enumeration: every name of (FHIRPath N1 list U repo base+experimental tables U near-miss spellings) x argument count 0..4 x {default, WithExperimentalFuncs} x {fhirpath.Compile, patch.Compile}; every call is also compiled in 8 syntactic positions (operands, indexer, argument, criterion; same acceptance) and with each argument replaced by a nested call that takes arguments (same acceptance, same result); accepted calls are evaluated with specification-typed arguments again on 17 receivers of every System type and element kind, and with the empty collection as receiver and in each argument position (no arity complaint); a not-implemented function must fail explicitly also as operand of every operator kind, as receiver, argument and criterion (16 contexts); binding of every table key is read with runtime.FuncForPC; a case is non-trivial when its (name, arity, config, compiler, outcome) is distinct",
 		Assumptions: []string{"the N1 signature table in checks/c16.go was transcribed from the specification", "documented extensions: extension() (FHIR R4), join() (experimental)"},
 		Subs: func(tier string) []core.Sub {
 			ns := names()
@@ -155,7 +146,7 @@ func init() {
 					for _, c := range cfgs {
 						tbl := c.table()
 						fn, inTable := tbl[name]
-						implemented := inTable && lib.FuncName(fn.Func) != placeholder
+						implemented := inTable && fn.Impl != placeholder
 						for n := 0; n <= 4; n++ {
 							src := callSrc(sig.recv, name, fillArgs(sig, n))
 							res := lib.Compile(src, c.copts()...)
@@ -180,9 +171,9 @@ func init() {
 								r.Fail(fmt.Sprintf("compilers-disagree|%s|arity=%d", name, n), core.W{"src": src, "fhirpath.Compile": res.String(), "patch.Compile": fmt.Sprint(perr)})
 							}
 							// (a) internal consistency of visitor and table
-							wantTbl := inTable && n >= fn.MinArity && n <= fn.MaxArity
+							wantTbl := inTable && n >= fn.Min && n <= fn.Max
 							if accepted != wantTbl {
-								r.Fail(fmt.Sprintf("table-consistency|%s|arity=%d|accepted=%v", name, n, accepted), core.W{"src": src, "config": c.name, "table_min": fn.MinArity, "table_max": fn.MaxArity, "in_table": inTable, "got": res.String()})
+								r.Fail(fmt.Sprintf("table-consistency|%s|arity=%d|accepted=%v", name, n, accepted), core.W{"src": src, "config": c.name, "table_min": fn.Min, "table_max": fn.Max, "in_table": inTable, "got": res.String()})
 							}
 							// (b) against the specification signature
 							if inSpec && implemented {
@@ -193,6 +184,28 @@ func init() {
 							}
 							if !inTable && accepted {
 								r.Fail("accepted-unknown-name|"+name, core.W{"src": src})
+							}
+							// ... and not on where the call stands: right operand, indexer, argument of another call
+							for _, pos := range []struct{ name, pre, post string }{
+								{"right-operand-of-=", "1 = ", ""}, {"right-operand-of-&", "'x' & ", ""}, {"right-operand-of-and", "true and ", ".exists()"}, {"left-operand", "", " = 1"},
+								{"indexer", "Patient.name[(", ").count()]"}, {"argument", "iif(true, ", ", 1)"}, {"criterion", "Patient.where((", ").exists())"}, {"parenthesised", "(", ")"},
+							} {
+								inner := src
+								if pos.name == "criterion" || pos.name == "argument" {
+									inner = strings.Replace(src, "Patient.", "%context.", 1)
+								}
+								src4 := pos.pre + inner + pos.post
+								res4 := lib.Compile(src4, c.copts()...)
+								r.Eval()
+								r.State("position|" + pos.name)
+								r.Nontrivial(src4, c.name, res4.Class())
+								if res4.Panic != nil {
+									r.Fail("call-position|"+pos.name+"|"+res4.Panic.Key(), core.W{"src": src4})
+									continue
+								}
+								if (res4.CompileErr == nil) != accepted {
+									r.Fail(fmt.Sprintf("call-position|%s|acceptance-differs-from-plain-call|%s|arity=%d|plain=%v", pos.name, name, n, accepted), core.W{"plain": src, "plain_outcome": res.String(), "embedded": src4, "embedded_outcome": res4.String(), "config": c.name})
+								}
 							}
 							// acceptance depends on the argument COUNT only: the same call with one argument replaced by a
 							// nested call that itself takes arguments (iif(true, a, a) = a) is accepted exactly when the plain call is
@@ -233,9 +246,31 @@ func init() {
 							r.Outcome(name + "|eval|" + ev.Class())
 							if ev.Panic != nil {
 								r.Fail("eval-panic|"+name+"|"+ev.Panic.Key(), core.W{"src": src, "panic": ev.Panic.Raw})
-							} else if ev.Err != nil && (errors.Is(ev.Err, impl.ErrWrongArity) || strings.Contains(strings.ToLower(ev.Err.Error()), "arity") || strings.Contains(ev.Err.Error(), "arguments, expected")) {
+							} else if ev.Err != nil && (ftab.IsArityError(ev.Err) || strings.Contains(strings.ToLower(ev.Err.Error()), "arity") || strings.Contains(ev.Err.Error(), "arguments, expected")) {
 								if inSpec && n >= sig.min && n <= sig.max || !inSpec {
 									r.Fail(fmt.Sprintf("arity-complaint-at-eval|%s|arity=%d", name, n), core.W{"src": src, "config": c.name, "err": ev.Err.Error()})
+								}
+							}
+							// the same accepted call on receivers of every System type and on elements: whatever else
+							// happens (a type error, empty), the argument count is accepted, so no arity complaint
+							if implemented {
+								for _, recv3 := range []string{"true", "false", "1", "0", "1.5", "'a'", "'1'", "@2020", "@2020-01-01T10:00:00Z", "@T10:00", "(1 'mg')", "(1 '1')", "Patient.active", "Patient.birthDate", "Patient.name.first()", "Patient.multipleBirth", "Patient"} {
+									src3 := callSrc(recv3, name, fillArgs(sig, n))
+									ev3 := lib.Run(src3, []fhir.Resource{lib.Patient()}, nil, c.copts()...)
+									r.Eval()
+									r.State(fmt.Sprintf("receiver-kind|arity=%d", n))
+									r.Nontrivial(src3, c.name, ev3.Class())
+									if ev3.CompileErr != nil || ev3.Panic != nil {
+										continue
+									}
+									if ev3.Err != nil && (ftab.IsArityError(ev3.Err) || strings.Contains(strings.ToLower(ev3.Err.Error()), "arity") || strings.Contains(ev3.Err.Error(), "arguments, expected")) {
+										if inSpec && n >= sig.min && n <= sig.max || !inSpec {
+											// a multi-item receiver is reported through the same sentinel ("input has length N"): not an argument-count complaint
+											if !strings.Contains(ev3.Err.Error(), "input has length") {
+												r.Fail(fmt.Sprintf("arity-complaint-at-eval|%s|arity=%d|receiver=%s", name, n, recv3), core.W{"src": src3, "config": c.name, "err": ev3.Err.Error()})
+											}
+										}
+									}
 								}
 							}
 							// the same accepted call with the empty collection as receiver or in one argument
@@ -257,7 +292,7 @@ func init() {
 									if ev2.CompileErr != nil || ev2.Panic != nil {
 										continue // acceptance depends on the count only (checked above); panics are C01/C07's subject
 									}
-									if ev2.Err != nil && (errors.Is(ev2.Err, impl.ErrWrongArity) || strings.Contains(strings.ToLower(ev2.Err.Error()), "arity") || strings.Contains(ev2.Err.Error(), "arguments, expected")) {
+									if ev2.Err != nil && (ftab.IsArityError(ev2.Err) || strings.Contains(strings.ToLower(ev2.Err.Error()), "arity") || strings.Contains(ev2.Err.Error(), "arguments, expected")) {
 										if inSpec && n >= sig.min && n <= sig.max || !inSpec {
 											r.Fail(fmt.Sprintf("arity-complaint-at-eval|%s|arity=%d|empty-at=%d", name, n, pos), core.W{"src": src2, "config": c.name, "err": ev2.Err.Error()})
 										}
@@ -304,7 +339,7 @@ func init() {
 							core.Try(func() { patch.Compile("Patient.name.given.join(',')", cfgs[ci].copts()...) })
 							r.Eval()
 						}
-						now := tableSnapshot(funcs.Clone())
+						now := tableSnapshot(ftab.Table(false))
 						if now != c16BaseSnapshot {
 							r.Fail("default-table-changed-by-compile-history", core.W{"at_process_start": c16BaseSnapshot, "now": now})
 						}
@@ -322,12 +357,14 @@ func init() {
 					for _, k := range keys {
 						fn := tbl[k]
 						r.Eval()
-						impln := lib.FuncName(fn.Func)
+						impln := fn.Impl
 						r.State("binding|" + c.name)
 						r.Nontrivial(k, impln)
-						r.Sample(core.W{"key": k, "impl": impln, "min": fn.MinArity, "max": fn.MaxArity})
+						r.Sample(core.W{"key": k, "impl": impln, "min": fn.Min, "max": fn.Max})
 						want := "fhirpath/internal/funcs/impl." + upperFirst(k)
-						if impln != want && impln != placeholder {
+						if impln == "" {
+							r.State("binding|implementation-name-not-observable (" + ftab.Mode + ")")
+						} else if impln != want && impln != placeholder {
 							r.Fail("binding|"+k+"|bound-to="+impln, core.W{"key": k, "bound_to": impln, "want": want})
 						}
 						_, s1 := n1[k]
@@ -335,14 +372,14 @@ func init() {
 						if !s1 && !s2 {
 							r.Fail("not-a-spec-name|"+k, core.W{"key": k, "bound_to": impln})
 						}
-						if fn.MinArity > fn.MaxArity || fn.MinArity < 0 {
-							r.Fail("bad-arity-bounds|"+k, core.W{"min": fn.MinArity, "max": fn.MaxArity})
+						if fn.Min > fn.Max || fn.Min < 0 {
+							r.Fail("bad-arity-bounds|"+k, core.W{"min": fn.Min, "max": fn.Max})
 						}
 					}
 					// every implemented spec function must be reachable under its spec name
 					implNames := map[string]string{}
 					for k, fn := range tbl {
-						implNames[lib.FuncName(fn.Func)] = k
+						implNames[fn.Impl] = k
 					}
 					for impln, k := range implNames {
 						if impln == placeholder || !strings.HasPrefix(impln, "fhirpath/internal/funcs/impl.") {
